@@ -10,8 +10,19 @@ from vlib.llvc import viewcheck
 def main(args):
     def keep(n):
         return bool(viewcheck.SAFETY.search(n)) or n.endswith(".cover") or n.endswith(".returns-cover")
-    r = viewcheck.run("C04", args, ["UInt", "Int", "Bcd", "Flag", "Float", "Enum"], ["read", "write"], keep=keep,
-                      only_safety=True, functions=["every function under contract in C02 and C03 (same wrappers, safety obligations)"])
+    import os, shutil
+    from vlib import core
+    from vlib.llvc import corpus
+    from corpus import specs
+    inc = corpus.generate_headers(sorted({s.emb for s in specs.ALL.values()}), os.path.join(core.VERIF, "corpus"))
+    try:
+        more = (corpus.read_jobs("corpus.specs", list(specs.ALL), inc, only_safety=True) + corpus.vwrite_jobs("corpus.specs", inc, only_safety=True)
+                + corpus.c20_jobs("corpus.specs", [n for n, s in specs.ALL.items() if getattr(s, "c20", True)], inc, only_safety=True))
+        r = viewcheck.run("C04", args, ["UInt", "Int", "Bcd", "Flag", "Float", "Enum"], ["read", "write"], keep=keep, only_safety=True, more_jobs=more,
+                          functions=["every function under contract in C02 and C03 (same wrappers, safety obligations)",
+                                     "generated views of the corpus structures: Ok/IsComplete/SizeIsKnown/has_x/x().Ok/Read/CouldWriteValue/TryToWrite/Equals/TryToCopyFrom harnesses (safety obligations)"])
+    finally:
+        shutil.rmtree(inc, ignore_errors=True)
     if isinstance(r, int):
         return r
     # Layer 2 (E1): the 64-bit gate and IntermediateT selection
